@@ -1067,6 +1067,9 @@ def main():
             for suffix, msg in check_K(l, kr, orr):
                 kbad += 1
                 key = "restore:%s:%s" % (l.split()[1], suffix)
+                # the known phenomenon C14-SSPEN (selection on penalised fitness, reported unpenalised values) also occurs in a continued run
+                if "REPORTED unpenalized" in msg and "while the hypervolume of the penalized fitness the selection works on grew" in msg:
+                    key = "steady-state:reported-hv-decreases-by-penalty"
                 if key in kseen: continue
                 kseen.add(key)
                 cf = ck.write_replay("K_case_%d.txt" % kbad, l + "\n")
